@@ -93,6 +93,130 @@ def nostate_findings(repo):
     return out
 
 
+def debug_rule(rule, c):
+    """Hand-written Debug impls of node structs show every data field on every path (equality is derived over all fields; the
+    property ties equality to the Debug rendering).  A field may be left out only where it is provably empty: an array `[X; P]`
+    on a path whose conditions on the const parameter P imply P == 0 (Skipped's `if SKIP > 0 { .. } else { matched only }`)."""
+    from ..hir import children
+
+    def paths(e):
+        """[(constraints, mentioned fields)] ; constraints: list of (param, op, int) known true"""
+        k = e["k"]
+        if k == "block":
+            acc = [([], set())]
+            parts = []
+            for st in e.get("stmts", []):
+                if st["k"] == "let" and "init" in st:
+                    parts.append(st["init"])
+                elif st["k"] == "expr":
+                    parts.append(st["e"])
+            if "tail" in e:
+                parts.append(e["tail"])
+            for part in parts:
+                nxt = []
+                for cs, ms in acc:
+                    for cs2, ms2 in paths(part):
+                        nxt.append((cs + cs2, ms | ms2))
+                acc = nxt[:64]
+            return acc
+        if k == "if":
+            cond = e["cond"]
+            cons_t, cons_f = [], []
+            if cond["k"] == "binary" and cond["l"]["k"] == "def" and cond["l"].get("kind") == "ConstParam" and cond["r"]["k"] == "lit" \
+                    and "int" in (cond["r"].get("v") or {}) and cond["op"] in (">", ">=", "==", "!=", "<", "<="):
+                pn = cond["l"]["path"].rsplit("::", 1)[-1]
+                kv = int(cond["r"]["v"]["int"])
+                neg = {">": "<=", ">=": "<", "==": "!=", "!=": "==", "<": ">=", "<=": ">"}
+                cons_t, cons_f = [(pn, cond["op"], kv)], [(pn, neg[cond["op"]], kv)]
+            base = mentions(cond)
+            out = [(cons_t + cs, base | ms) for cs, ms in paths(e["then"])]
+            if "else" in e:
+                out += [(cons_f + cs, base | ms) for cs, ms in paths(e["else"])]
+            else:
+                out.append((cons_f, base))
+            return out
+        if k == "match":
+            base = mentions(e["scrut"])
+            out = []
+            for arm in e["arms"]:
+                # `match self { Self { content, .. } => .. }` (what derive macros write): a field bound by the pattern and used in
+                # the arm is shown
+                bound = pattern_fields(arm["pat"])
+                used = {n["var"] for n in walk(arm["body"]) if n["k"] == "local"}
+                viapat = {fname for var, fname in bound.items() if var in used}
+                out += [(cs, base | viapat | ms) for cs, ms in paths(arm["body"])]
+            return out
+        return [([], mentions(e))]
+
+    def pattern_fields(p):
+        out = {}
+        while p["k"] in ("ref", "deref"):
+            p = p["p"]
+        if p["k"] == "struct":
+            for f in p.get("fields", []):
+                q = f["p"]
+                while q["k"] in ("ref", "deref"):
+                    q = q["p"]
+                if q["k"] == "bind":
+                    out[q["var"]] = str(f["name"])
+        return out
+
+    def mentions(e):
+        out = set()
+        for n in walk(e):
+            if n["k"] == "field":
+                b = n["base"]
+                while b["k"] in ("addr_of", "use", "cast") or (b["k"] == "unary" and b.get("op") == "*"):
+                    b = b["e"]
+                if b["k"] == "local" and b.get("name") == "self":
+                    out.add(str(n["name"]))
+        return out
+
+    def implies_zero(cons, param):
+        # unsigned: P <= 0, P < 1, P == 0
+        return any(p == param and ((op == "<=" and kv == 0) or (op == "<" and kv == 1) or (op == "==" and kv == 0)) for p, op, kv in cons)
+
+    for it in c.impls():
+        if it.get("trait") != "core::fmt::Debug" or it.get("auto_derived"):
+            continue
+        im = nodes.Impl(c, it)
+        path = im.self_adt()[0]
+        adt = c.item(path)
+        if not adt or adt.get("kind") != "Struct" or not path.startswith(("pest_typed::predefined_node::", "pest_typed::sequence::")):
+            continue
+        if "::unicode::" in path and not path.endswith("::LETTER"):
+            continue
+        b = c.body(im.methods.get("fmt", ""))
+        if b is None:
+            continue
+        fields = []
+        for f in adt["variants"][0]["fields"]:
+            ty = c.tys(f["ty"])
+            if ty.startswith("core::marker::PhantomData"):
+                continue
+            arr = None
+            t = c.types[f["ty"]]
+            if t.get("k") == "array":
+                arr = str(t.get("len", t.get("n", "")))
+            fields.append((f["name"], ty, arr))
+        bad = []
+        npaths = 0
+        for cons, ms in paths(b["value"]):
+            npaths += 1
+            for name, ty, arr in fields:
+                if name in ms:
+                    continue
+                m = re.match(r"\[.*; (\w+)\]$", ty)
+                if m and implies_zero(cons, m.group(1)):
+                    continue
+                bad.append("field `%s` is not shown on a path%s" % (name, (" where " + " and ".join("%s %s %d" % x for x in cons)) if cons else ""))
+        key = path.rsplit("::", 1)[-1]
+        if bad:
+            rule.violate(key, "; ".join(sorted(set(bad))) + " — two values that differ in it compare unequal but render alike", im.loc)
+        else:
+            rule.inst(key, im.loc, "ok", {"fields": [f[0] for f in fields], "paths": npaths})
+
+
 def run(ctx):
     fs = facts.load("core", "fx_macros")
     world = nodes.World(fs, ["pest_typed", "fx_macros"])
@@ -167,6 +291,10 @@ def run(ctx):
                         nontrivial=("unicode" not in path))
     rf.require(20, "manual impls")
     rd.require(280, "node types")
+    rdb = ctx.rule("R18-DEBUG", "hand-written Debug impls of node structs show every data field on every path (a field may be left out only "
+                                "where it is provably an empty array)")
+    debug_rule(rdb, fs["pest_typed"])
+    rdb.require(15, "Debug impls")
     # NOSTATE
     repo = fs["pest_typed"]
     n_items = len(repo.item_list)
